@@ -4,7 +4,102 @@ import z3
 from .ty import Ty, INT, REAL, BOOL, NONE, STR, Ref, List, Seq, Opt, Tuple, sort_of, elem_key, parse_ty
 from .state import SV, PyVal, State, Snapshot, mk_int, mk_real, mk_bool, mk_none, mk_str, mk_tuple, mk_seq
 from .ctx import Unsupported, RaiseSig, PathEnd
-from .expr import is_sv
+from .expr import is_sv, _ix, rd
+
+
+def _collect(t, varset, out, seen):
+    """candidate trigger terms: select / uninterpreted applications that mention bound constants directly and contain no
+    variables of nested quantifiers; also looks inside nested quantifier bodies (z3 does not)"""
+    key = t.get_id()
+    if key in seen:
+        return seen[key]
+    if z3.is_quantifier(t):
+        _collect(t.body(), varset, out, seen)
+        seen[key] = (frozenset(), True)
+        return seen[key]
+    if z3.is_var(t):
+        seen[key] = (frozenset(), True)
+        return seen[key]
+    if z3.is_const(t):
+        r = (frozenset([t.get_id()]) if t.get_id() in varset else frozenset(), False)
+        seen[key] = r
+        return r
+    vs, inner = frozenset(), False
+    child = []
+    for c in t.children():
+        v, i = _collect(c, varset, out, seen)
+        child.append((c, v, i))
+        vs |= v
+        inner = inner or i
+    k = t.decl().kind()
+    ok_kind = k == z3.Z3_OP_SELECT or k == z3.Z3_OP_UNINTERPRETED
+    if not ok_kind and not z3.is_int_value(t) and not z3.is_rational_value(t):
+        # anything else (ite, arithmetic, store, boolean structure) cannot occur inside a trigger
+        inner_here = True
+    else:
+        inner_here = False
+    if ok_kind and vs and not inner:
+        # index arguments should be plain (no arithmetic on the bound variable) to be matchable
+        plain = True
+        for c, v, i in child:
+            if v and not (z3.is_const(c) or c.decl().kind() in (z3.Z3_OP_SELECT, z3.Z3_OP_UNINTERPRETED)):
+                plain = False
+        if plain:
+            out.append((t, vs))
+    seen[key] = (vs, inner or inner_here)
+    return seen[key]
+
+
+def pattern_ok(t):
+    if z3.is_int_value(t) or z3.is_rational_value(t) or z3.is_const(t):
+        return True
+    if z3.is_var(t) or z3.is_quantifier(t) or not z3.is_app(t):
+        return False
+    if t.decl().kind() not in (z3.Z3_OP_SELECT, z3.Z3_OP_UNINTERPRETED):
+        return False
+    return all(pattern_ok(c) for c in t.children())
+
+
+def choose_patterns(vars_, body):
+    varset = {v.get_id() for v in vars_}
+    out = []
+    _collect(body, varset, out, {})
+    if not out:
+        return None
+    allv = frozenset(varset)
+    # drop candidates that strictly contain a smaller candidate with the same variables (prefer small triggers)
+    uniq = {}
+    for t, vs in out:
+        uniq[t.get_id()] = (t, vs)
+    cands = list(uniq.values())
+
+    def size(t):
+        return len(t.sexpr())
+    cands.sort(key=lambda c: size(c[0]))
+    full = [t for t, vs in cands if vs == allv]
+    minimal = []
+    for t in full:
+        if not any(_contains(t, m) for m in minimal):
+            minimal.append(t)
+    pats = list(minimal[:4])
+    if not pats:
+        # cover all variables with a multi-pattern of small terms
+        cover, have = [], frozenset()
+        for t, vs in cands:
+            if not vs <= have:
+                cover.append(t)
+                have |= vs
+            if have == allv:
+                break
+        if have == allv:
+            pats = [z3.MultiPattern(*cover)]
+    return pats or None
+
+
+def _contains(t, sub):
+    if t.get_id() == sub.get_id():
+        return True
+    return any(_contains(c, sub) for c in t.children())
 
 
 class CallMixin:
@@ -148,7 +243,10 @@ class CallMixin:
 
     def bi_list(self, args, kwargs, st, spec):
         if not args:
-            return self.new_list(Ty("any"), None, z3.IntVal(0), st)
+            hint = self.pending_list_type
+            if hint is None or hint.kind != "list":
+                raise Unsupported("list() of unknown element type")
+            return self.new_list(hint.arg, None, z3.IntVal(0), st)
         v = args[0]
         if is_sv(v) and v.ty.kind in ("list", "seq", "tuple"):
             if spec:
@@ -220,7 +318,7 @@ class CallMixin:
         i = self.ctx.fresh("i", z3.IntSort())
         saved = st.bound
         st.bound = dict(saved)
-        self.bind_target(gen.target, SV(e, arr[i + off]), st, bound=True)
+        self.bind_target(gen.target, SV(e, arr[_ix(i, off)]), st, bound=True)
         try:
             conds = [self.truthy(self.ev(c, st, spec), st) for c in gen.ifs]
             body = self.truthy(self.ev(node.elt, st, spec), st)
@@ -240,7 +338,7 @@ class CallMixin:
         for s in seqs[1:]:
             ln = z3.If(s[3] < ln, s[3], ln)
         j = self.ctx.fresh("j", z3.IntSort())
-        elems = [SV(s[0], s[1][j + s[2]]) for s in seqs]
+        elems = [SV(s[0], s[1][_ix(j, s[2])]) for s in seqs]
         saved = st.bound
         st.bound = dict(saved)
         try:
@@ -292,7 +390,7 @@ class CallMixin:
         st.assume(z3.And(0 <= i, i < ln))
         self.ctx.models_used.add("random.choice(L) = L[i] for some 0<=i<len(L)")
         st.env["_choice_index"] = mk_int(i)
-        r = SV(e, arr[i + off])
+        r = SV(e, arr[_ix(i, off)])
         if e.kind in ("ref", "list"):
             st.assume(z3.And(r.t >= 1, r.t < st.alloc()))
         return r
@@ -315,7 +413,7 @@ class CallMixin:
         self.ctx.models_used.add("random.sample(L,k): k elements at pairwise distinct positions")
         items = []
         for i in idx:
-            r = SV(e, arr[i + off])
+            r = SV(e, arr[_ix(i, off)])
             if e.kind in ("ref", "list"):
                 st.assume(z3.And(r.t >= 1, r.t < st.alloc()))
             items.append(r)
@@ -343,7 +441,16 @@ class CallMixin:
         v = args[0]
         if v.ty.kind == "seq" and v.ty.arg.kind in ("real", "int"):
             f = z3.Function("hash_seq", z3.ArraySort(z3.IntSort(), sort_of(v.ty.arg)), z3.IntSort(), z3.IntSort(), z3.IntSort())
-            self.ctx.models_used.add("hash(tuple): uninterpreted function of the value sequence")
+            self.ctx.models_used.add("hash(tuple): uninterpreted function of the value sequence (equal elements => equal hash)")
+            srt = z3.ArraySort(z3.IntSort(), sort_of(v.ty.arg))
+            a1, a2 = z3.Const("ha1", srt), z3.Const("ha2", srt)
+            o1, o2, n, i = z3.Ints("ho1 ho2 hn hi")
+            ax = z3.ForAll([a1, a2, o1, o2, n],
+                           z3.Implies(z3.ForAll([i], z3.Implies(z3.And(0 <= i, i < n), a1[i + o1] == a2[i + o2])),
+                                      f(a1, o1, n) == f(a2, o2, n)),
+                           patterns=[z3.MultiPattern(f(a1, o1, n), f(a2, o2, n))])
+            if not any(ax.eq(p) for p in st.pc):
+                st.assume(ax)
             return SV(INT, f(v.t, v.aux[0], v.aux[1]))
         raise Unsupported("hash of %r" % (v.ty,))
 
@@ -384,7 +491,7 @@ class CallMixin:
             raise Unsupported("append to a list of unknown element type (declare it)")
         v = self.coerce(v, ety, st)
         ln = self.list_len(lst, st)
-        arr = self.content_arr(ety, st)[lst.t]
+        arr = rd(self.content_arr(ety, st), lst.t)
         self.list_set_content(lst, z3.Store(arr, ln, v.t), ln + 1, st)
         return mk_none()
 
@@ -413,7 +520,7 @@ class CallMixin:
         if not spec:
             self.ctx.oblige(st, "safe:pop", ln > 0, text="pop from non-empty list")
         v = self.list_elem(lst, ln - 1, st)
-        st.hset("$len", z3.Store(self.len_arr(st), lst.t, ln - 1))
+        st.hset(self.len_key(lst.ty.arg), z3.Store(self.len_arr(st, lst.ty.arg), lst.t, ln - 1))
         return v
 
     def lm_insert(self, lst, args, kwargs, st, spec):
@@ -430,9 +537,16 @@ class CallMixin:
 
     def list_delete(self, lst, idx, st):
         e, arr1, off1, l1 = self.seq_of(lst, st)
-        j = z3.Int("j!del")
-        arr = z3.Lambda([j], z3.If(j < idx, arr1[j], arr1[j + 1]))
+        arr = self.defined_array("del", arr1.sort(), lambda j: z3.If(j < idx, arr1[j], arr1[j + 1]), st, also=[arr1])
         self.list_set_content(lst, arr, l1 - 1, st)
+
+    def defined_array(self, base, sort, fn, st, also=()):
+        """fresh array constant with a quantified definition (E-matching handles this better than lambda terms);
+        the definition is triggered by reads of the new array and of the source arrays"""
+        a = self.ctx.fresh(base, sort)
+        j = self.ctx.fresh("j", z3.IntSort())
+        st.assume(z3.ForAll([j], a[j] == fn(j), patterns=[a[j]] + [b[j] for b in also if pattern_ok(b)]))
+        return a
 
     # ------------------------------------------------------------------ spec builtins
     def _quant(self, node, st, is_forall):
@@ -470,8 +584,21 @@ class CallMixin:
             st.bound = saved
         rng = z3.And(*ranges) if ranges else z3.BoolVal(True)
         if is_forall:
-            return mk_bool(z3.ForAll(vars_, z3.Implies(rng, body)))
-        return mk_bool(z3.Exists(vars_, z3.And(rng, body)))
+            return mk_bool(self.mk_forall(vars_, z3.Implies(rng, body)))
+        return mk_bool(self.mk_exists(vars_, z3.And(rng, body)))
+
+    def mk_forall(self, vars_, body):
+        pats = choose_patterns(vars_, body)
+        if pats:
+            return z3.ForAll(vars_, body, patterns=pats)
+        return z3.ForAll(vars_, body)
+
+    def mk_exists(self, vars_, body):
+        # an existential in a hypothesis is skolemised; in a goal it becomes a universal after negation
+        pats = choose_patterns(vars_, body)
+        if pats:
+            return z3.Exists(vars_, body, patterns=pats)
+        return z3.Exists(vars_, body)
 
     def spec_forall(self, node, st):
         return self._quant(node, st, True)
@@ -552,6 +679,30 @@ class CallMixin:
         e2, arr2, off2, l2 = self.seq_of(b, st, True)
         return mk_bool(z3.And(l1 == l2, arr1 == arr2))
 
+    def _list_unchanged(self, node, st, snap):
+        if snap is None:
+            raise Unsupported("no snapshot")
+        lst = self.ev(node.args[0], st, True)
+        if lst.ty.kind != "list":
+            raise Unsupported("unchanged() of non-list")
+        ety = lst.ty.arg
+        ck, lk = self.content_key(ety), self.len_key(ety)
+        cur_c, cur_l = st.harr(ck, self.heap_sort(ck)), st.harr(lk, self.heap_sort(lk))
+        old_c = snap.heap.get(ck, self.ctx.initial_array(ck, self.heap_sort(ck)))
+        old_l = snap.heap.get(lk, self.ctx.initial_array(lk, self.heap_sort(lk)))
+        i = self.ctx.fresh("i", z3.IntSort())
+        return mk_bool(z3.And(cur_l[lst.t] == old_l[lst.t],
+                              z3.ForAll([i], z3.Implies(z3.And(0 <= i, i < cur_l[lst.t]), cur_c[lst.t][i] == old_c[lst.t][i]))))
+
+    def spec_unchanged(self, node, st):
+        """unchanged(l): list object l has the length and elements it had at entry (at the call, inside callee posts)"""
+        return self._list_unchanged(node, st, st.call_pre if st.call_pre is not None else st.entry)
+
+    def spec_stable(self, node, st):
+        """stable(l): list object l has the length and elements it had just before the enclosing loop (or loop n)"""
+        n = node.args[1].value if len(node.args) > 1 else st.cur_loop[-1]
+        return self._list_unchanged(node, st, st.loops.get(n))
+
     def spec_heap_same(self, node, st):
         """heap_same('Class.field') : the whole heap array is unchanged since entry (or since the call for callee posts)"""
         key = node.args[0].value
@@ -590,6 +741,11 @@ class CallMixin:
         hi = self.to_int(self.ev(node.args[2], st, True)) if len(node.args) > 2 else ln
         return SV(REAL, self.sum_fun()(arr, off + lo, off + hi))
 
+    def spec_fdiv(self, node, st):
+        a = self.to_real(self.ev(node.args[0], st, True))
+        b = self.to_real(self.ev(node.args[1], st, True))
+        return SV(REAL, self.fdiv_fun()(a, b))
+
     def spec_real(self, node, st):
         return SV(REAL, self.to_real(self.ev(node.args[0], st, True)))
 
@@ -616,7 +772,7 @@ class CallMixin:
         return SV(fd.ret, f(*zargs))
 
     def heap_sort(self, key):
-        if key == "$len":
+        if key.startswith("$len"):
             return z3.ArraySort(z3.IntSort(), z3.IntSort())
         if key.startswith("$list."):
             s = {"Real": z3.RealSort(), "Int": z3.IntSort(), "Bool": z3.BoolSort(), "Ref": z3.IntSort()}[key[6:]]
@@ -800,7 +956,7 @@ class CallMixin:
             st.hset(self.content_key(ety), z3.Store(ca, lst.t, ctx.fresh("hv_content", ca.sort().range())))
             nl = ctx.fresh("hv_len", z3.IntSort())
             st.assume(nl >= 0)
-            st.hset("$len", z3.Store(self.len_arr(st), lst.t, nl))
+            st.hset(self.len_key(ety), z3.Store(self.len_arr(st, ety), lst.t, nl))
             return
         if isinstance(node, ast.Attribute) or isinstance(node, ast.Subscript):
             if isinstance(node, ast.Attribute):
@@ -837,7 +993,7 @@ class CallMixin:
         # follow intermediate fields (e.g. each(L).features.k): membership of r in {x.features | x in L}
         r = z3.Int("r!each")
         i = z3.Int("i!each")
-        member_elem = lambda rr: z3.Exists([i], z3.And(0 <= i, i < ln, arr[i + off] == rr))
+        member_elem = lambda rr: z3.Exists([i], z3.And(0 <= i, i < ln, arr[_ix(i, off)] == rr))
         if len(path) == 1:
             key, ty = self.field_key(cname, path[0])
             member = member_elem
@@ -845,7 +1001,7 @@ class CallMixin:
             k1, t1 = self.field_key(cname, path[0])
             a1 = tmp.harr(k1, self.heap_sort(k1))
             key, ty = self.field_key(t1.arg, path[1])
-            member = lambda rr: z3.Exists([i], z3.And(0 <= i, i < ln, a1[arr[i + off]] == rr))
+            member = lambda rr: z3.Exists([i], z3.And(0 <= i, i < ln, a1[arr[_ix(i, off)]] == rr))
         keys = [key] + ([key + "?"] if ty.kind == "opt" else [])
         for kk in keys:
             cur = st.harr(kk, self.heap_sort(kk))
